@@ -113,7 +113,7 @@ Proof. vm_compute. repeat split. Qed.
 Theorem lf_match_unguarded_refuted :
   (exists text pat, lf_inb text /\ lf_inb pat /\ lf_match false text (Some pat) true true = LfOob) /\
   (exists rs q, lf_table_ok rs = true /\ lf_selected (Some q) rs = [] /\
-     exists r, lf_print_wellknown_g false rs (Some q) 0 64 = LfVal r /\ lf_rtotal r <> 0).
+     exists r, lf_print_wellknown_g false [0] rs (Some q) 0 64 = LfVal r /\ lf_rtotal r <> 0).
 Proof.
   split.
   - exists {| lf_obj := [97;98;32;99;100;0]; lf_at := 0; lf_len := 5 |}.
@@ -141,7 +141,7 @@ Proof. vm_compute. split; reflexivity. Qed.
    repaired code treats values shorter than two bytes as unquoted text. *)
 Theorem lf_lone_quote_refuted :
   exists rs q, lf_table_ok rs = false /\
-    lf_print_wellknown_g false rs (Some q) 0 64 = LfOob /\
+    lf_print_wellknown_g false [0] rs (Some q) 0 64 = LfOob /\
     lf_print_wellknown rs (Some q) 0 64 =
     LfVal {| lf_rstatus := LfDone 0 false; lf_rbytes := []; lf_rtotal := 0 |}.
 Proof.
